@@ -97,3 +97,67 @@ impl<'a> Reduced<'a> {
 pub proof fn axiom_i64_bitops(a: i64, b: i64)
     ensures (a & b) as int == bitand_int(a as int, b as int), (a | b) as int == bitor_int(a as int, b as int), (a ^ b) as int == bitxor_int(a as int, b as int)
 { }
+
+// ---- shifts
+pub open spec fn shift_int(a: int, s: int) -> int {
+    if s >= 0 { a * pow_int(2, s as nat) } else { fdiv(a, pow_int(2, (-s) as nat)) }
+}
+pub open spec fn USIZE_MAX() -> int { 0xffff_ffff_ffff_ffff }
+// src/machine/arithmetic_ops.rs checked_signed_shl: proved on the real function by engine K
+// (unit shl_kernel, complete over i64 x usize): a returned value is the exact product.
+#[verifier::external_body]
+pub fn checked_signed_shl(x: i64, shift: usize) -> (r: Option<i64>)
+    ensures r matches Some(v) ==> v == x * pow_int(2, shift as nat)
+{ unimplemented!() }
+impl<'a> core::convert::TryFrom<&'a Integer> for u32 {
+    type Error = OutOfBounds;
+    #[verifier::external_body]
+    fn try_from(n: &'a Integer) -> (r: Result<u32, OutOfBounds>)
+        ensures 0 <= n.v() <= u32::MAX ==> r == Ok::<u32, OutOfBounds>(n.v() as u32), !(0 <= n.v() <= u32::MAX) ==> r is Err { unimplemented!() }
+}
+impl<'a> core::convert::TryFrom<&'a Integer> for usize {
+    type Error = OutOfBounds;
+    #[verifier::external_body]
+    fn try_from(n: &'a Integer) -> (r: Result<usize, OutOfBounds>)
+        ensures 0 <= n.v() <= usize::MAX ==> r == Ok::<usize, OutOfBounds>(n.v() as usize), !(0 <= n.v() <= usize::MAX) ==> r is Err { unimplemented!() }
+}
+
+// ---- max / min
+pub trait PtrVal: Sized { spec fn le(a: Self, b: Self) -> bool; }
+impl PtrVal for Integer { open spec fn le(a: Integer, b: Integer) -> bool { a.v() <= b.v() } }
+pub uninterp spec fn q_le(a: Rational, b: Rational) -> bool;
+impl PtrVal for Rational { open spec fn le(a: Rational, b: Rational) -> bool { q_le(a, b) } }
+pub mod cmp {
+    use vstd::prelude::*;
+    use super::*;
+    pub use core::cmp::Ordering;
+    // std::cmp::max returns the second argument when the two compare equal, min the first
+    #[verifier::external_body]
+    pub fn max<T: PtrVal>(a: TypedArenaPtr<T>, b: TypedArenaPtr<T>) -> (r: TypedArenaPtr<T>)
+        ensures r == (if T::le(a.view(), b.view()) { b } else { a }) { unimplemented!() }
+    #[verifier::external_body]
+    pub fn min<T: PtrVal>(a: TypedArenaPtr<T>, b: TypedArenaPtr<T>) -> (r: TypedArenaPtr<T>)
+        ensures r == (if T::le(a.view(), b.view()) { a } else { b }) { unimplemented!() }
+}
+pub uninterp spec fn f_total_cmp(a: f64, b: f64) -> core::cmp::Ordering;   // OrderedFloat's total order (NaN greatest, -0.0 == +0.0)
+impl OrderedFloat<f64> {
+    #[verifier::external_body]
+    pub fn cmp(&self, o: &OrderedFloat<f64>) -> (r: core::cmp::Ordering) ensures r == f_total_cmp(self.0, o.0) { unimplemented!() }
+    #[verifier::external_body]
+    pub fn signum(&self) -> (r: f64) ensures r == f_signum(self.0) { unimplemented!() }
+}
+pub uninterp spec fn f_signum(a: f64) -> f64;
+#[verifier::external_body] pub fn of64_is_zero(f: OrderedFloat<f64>) -> (r: bool) ensures r == f_is_zero(f.0) { unimplemented!() }
+#[verifier::external_body]
+pub fn result_f(n: &Number) -> (r: Result<f64, EvalError>) ensures r == classify_spec(flt(*n)) { unimplemented!() }
+
+// ---- gcd: Euclid's algorithm on naturals is the reference definition
+pub open spec fn gcd_nat(a: nat, b: nat) -> nat decreases b { if b == 0 { a } else { gcd_nat(b, a % b) } }
+pub open spec fn gcd_spec(a: int, b: int) -> int { gcd_nat(abs_int(a) as nat, abs_int(b) as nat) as int }
+#[verifier::external_body]
+pub proof fn axiom_gcd_int_is_euclid(a: int, b: int) ensures gcd_int(a, b) == gcd_spec(a, b) { }
+// src/machine/arithmetic_ops.rs isize_gcd (binary GCD): contract discharged in unit `gcd` (see evidence)
+#[verifier::external_body]
+pub fn isize_gcd(n1: isize, n2: isize) -> (r: Option<isize>)
+    ensures r matches Some(g) ==> g == gcd_spec(n1 as int, n2 as int)
+{ unimplemented!() }
